@@ -5,6 +5,11 @@
 //!  * `word_boundary` boundary moduli up to 61 bits x boundary operands (incl. 128-bit inputs)
 //!  * `multiword`     every helper of util::basic over W^len operand (pairs), len 1..4 (8 thorough)
 //!  * `numtheory`     gcd / xgcd / inversion / naf on all pairs below 2^7 and the boundary set
+//!  * `big_multi`     the multi-word helpers at production word counts (1..9, 15..17, 31..33, 63..65; 127..129 thorough) on
+//!                    structured exhaustive families (single words, all-ones runs, one-word differences, every shift amount, every
+//!                    denominator / modulus length, every (len1, len2) for products and mixed-length sums, 1..66 factors)
+//!  * `big_word`      the word-level primitives that loop: multi-word reduction (1..129 words), dot products of every term count
+//!                    1..300 at the edge of the 128-bit accumulator, exponents of every bit length 0..64
 
 use crate::engine::*;
 use crate::refmodel::bigu::*;
@@ -21,6 +26,8 @@ pub fn describe(rep: &Report) {
     rep.assume("u128 arithmetic of rustc and the self-tested schoolbook BigU are the reference");
     rep.assume("documented operand ranges are taken from the doc comments of util::uintsmallmod (e.g. operands < q for add/sub, y < q for the operand form)");
     rep.assume("moduli above 2^7 are covered on a boundary set only (2^k, 2^k±1, 2^k±3, largest NTT primes of 59..61 bits)");
+    rep.assume("word counts above 8 are covered on structured families only (big_multi: words from {0,1,2^63,2^64-1} at every position / every run / every one-word difference, plus one position-distinct fill), not on the full alphabet product");
+    rep.assume("dot_product_mod is judged where the exact sum of the products fits 128 bits (its documented condition, that of barrett_reduce_128); shifts by less than 64*len bits; divide_uint_mod_inplace is not called with 3 or more words by the big sections (known finding word:divide_uint_mod_len3:*)");
 }
 
 #[derive(Serialize, Deserialize, Clone, Debug)]
@@ -893,6 +900,670 @@ fn run_nt(c: &NCase, ys: &[u64]) -> CaseOut {
     CaseOut::pass(true, h64(&(c.func.as_str(), x % 7)), steps)
 }
 
+// ------------------------------------------------------------------------------------------
+// production-size sections: operand LENGTH (words), shift amount, operand count, exponent bit
+// length driven across 8 / 16 / 32 / 64 (+-1) with structured exhaustive families
+// ------------------------------------------------------------------------------------------
+
+/// word counts of the multi-word sections
+pub const BIG_LENS: [usize; 18] = [1, 2, 3, 4, 5, 6, 7, 8, 9, 15, 16, 17, 31, 32, 33, 63, 64, 65];
+/// thorough tier only, reduced families
+pub const BIG_LENS_2X: [usize; 3] = [127, 128, 129];
+const TOPBIT: u64 = 1 << 63;
+const MAXW: u64 = u64::MAX;
+
+type EvalErr = (String, String, String);
+
+#[derive(Serialize, Deserialize, Clone, Debug)]
+pub struct BCase {
+    pub func: String,
+    /// word count of the (first) operand; operand count for multiply_many
+    pub len: usize,
+    /// word count of the second operand where it may differ (multiply, mixed), else 0
+    pub len2: usize,
+    /// 0 = reduced operand families (quick tier), 1 = complete families (thorough tier)
+    pub full: u8,
+}
+
+#[derive(Serialize, Deserialize, Clone, Debug)]
+pub struct BWCase {
+    pub func: String,
+    pub q: u64,
+    pub full: u8,
+}
+
+/// position-distinct generic words (fixed constants, so that a word copied from / to the wrong index is visible)
+fn gen_fill(len: usize, salt: u64) -> Vec<u64> {
+    (0..len as u64).map(|i| (i + 1 + 131 * salt).wrapping_mul(0x9E37_79B9_7F4A_7C15) ^ 0x0123_4567_89AB_CDEF).collect()
+}
+fn unit_w(len: usize, i: usize, w: u64) -> Vec<u64> {
+    let mut v = vec![0u64; len];
+    v[i] = w;
+    v
+}
+/// 2^64-1 in the words [i, j), zero elsewhere
+fn run_w(len: usize, i: usize, j: usize) -> Vec<u64> {
+    let mut v = vec![0u64; len];
+    for x in &mut v[i..j] {
+        *x = MAXW;
+    }
+    v
+}
+fn dedup_keep_order(v: Vec<Vec<u64>>) -> Vec<Vec<u64>> {
+    let mut seen = std::collections::HashSet::new();
+    v.into_iter().filter(|x| seen.insert(x.clone())).collect()
+}
+
+/// The structured operand family U(len) over the word alphabet {0, 1, 2^63, 2^64-1} (+ one generic fill):
+/// zero, all-ones, fill; a single word w at every position (w = 1, 2^64-1; complete: also 2^63); all-ones with the
+/// word at every position replaced (by 0; complete: also by 1, 2^63); all-ones runs [0,i) and [i,len) for every i.
+fn fam_u(len: usize, full: bool) -> Vec<Vec<u64>> {
+    let mut v = vec![vec![0u64; len], vec![MAXW; len], gen_fill(len, 0)];
+    let singles: &[u64] = if full { &[1, MAXW, TOPBIT] } else { &[1, MAXW] };
+    let holes: &[u64] = if full { &[0, 1, TOPBIT] } else { &[0] };
+    for i in 0..len {
+        for &w in singles {
+            v.push(unit_w(len, i, w));
+        }
+    }
+    for i in 0..len {
+        for &w in holes {
+            let mut x = vec![MAXW; len];
+            x[i] = w;
+            v.push(x);
+        }
+    }
+    for i in 1..len {
+        v.push(run_w(len, 0, i));
+        v.push(run_w(len, i, len));
+    }
+    dedup_keep_order(v)
+}
+
+/// Pairs for the binary carry / borrow / comparison helpers: U x U, plus (all-ones run [i,j), single word w at i)
+/// for every i < j (a carry entering at word i crosses every boundary up to j), plus pairs differing in exactly one word.
+fn fam_pairs(len: usize, full: bool) -> (Vec<Vec<u64>>, Vec<(u32, u32)>) {
+    let mut ops: Vec<Vec<u64>> = vec![];
+    let mut index: std::collections::HashMap<Vec<u64>, u32> = std::collections::HashMap::new();
+    let mut intern = |v: Vec<u64>, ops: &mut Vec<Vec<u64>>| -> u32 {
+        if let Some(&i) = index.get(&v) {
+            return i;
+        }
+        let i = ops.len() as u32;
+        index.insert(v.clone(), i);
+        ops.push(v);
+        i
+    };
+    let u: Vec<u32> = fam_u(len, full).into_iter().map(|v| intern(v, &mut ops)).collect();
+    let mut pairs: Vec<(u32, u32)> = vec![];
+    for &x in &u {
+        for &y in &u {
+            pairs.push((x, y));
+        }
+    }
+    for i in 0..len {
+        for j in (i + 1)..=len {
+            let r = intern(run_w(len, i, j), &mut ops);
+            for w in [1u64, MAXW] {
+                let e = intern(unit_w(len, i, w), &mut ops);
+                pairs.push((r, e));
+                pairs.push((e, r));
+            }
+        }
+    }
+    let f = gen_fill(len, 0);
+    let fi = intern(f.clone(), &mut ops);
+    for i in 0..len {
+        for w in [0u64, 1, TOPBIT, MAXW, f[i].wrapping_add(1), f[i].wrapping_sub(1)] {
+            let mut g = f.clone();
+            g[i] = w;
+            let gi = intern(g, &mut ops);
+            pairs.push((fi, gi));
+            pairs.push((gi, fi));
+        }
+    }
+    let mut seen = std::collections::HashSet::new();
+    pairs.retain(|p| seen.insert(*p));
+    (ops, pairs)
+}
+
+/// Operands of the products: zero, all-ones, fill, a single 1 at every word (complete: also a single 2^64-1 / 2^63 at every
+/// word, all-ones with a zero word at every position).
+fn fam_mul(len: usize, full: bool) -> Vec<Vec<u64>> {
+    let mut v = vec![vec![0u64; len], vec![MAXW; len], gen_fill(len, 0)];
+    for i in 0..len {
+        v.push(unit_w(len, i, 1));
+    }
+    if full {
+        for i in 0..len {
+            v.push(unit_w(len, i, MAXW));
+            v.push(unit_w(len, i, TOPBIT));
+            let mut x = vec![MAXW; len];
+            x[i] = 0;
+            v.push(x);
+        }
+    }
+    dedup_keep_order(v)
+}
+
+/// Operands of the mixed-length helpers: zero, all-ones, fill, a single 1 / 2^64-1 at every word.
+fn fam_mixed(len: usize) -> Vec<Vec<u64>> {
+    let mut v = vec![vec![0u64; len], vec![MAXW; len], gen_fill(len, 1)];
+    for i in 0..len {
+        v.push(unit_w(len, i, 1));
+        v.push(unit_w(len, i, MAXW));
+    }
+    dedup_keep_order(v)
+}
+
+fn ext(v: &[u64], len: usize) -> Vec<u64> {
+    let mut x = v.to_vec();
+    x.resize(len, 0);
+    x
+}
+
+fn big_multiply_eval(a: &[u64], b: &[u64]) -> Result<u64, EvalErr> {
+    let (l1, l2) = (a.len(), b.len());
+    let p = BigU::from_limbs(a).mul(&BigU::from_limbs(b));
+    // truncated results, the exact length, and pre-filled buffers longer than the product
+    let mut rls = vec![1usize, l1.max(l2), l1 + l2 - 1, l1 + l2, l1 + l2 + 1, l1 + l2 + 3];
+    rls.sort();
+    rls.dedup();
+    let mut n = 0;
+    for rl in rls {
+        let mut r = vec![0xDEADu64; rl];
+        hu::multiply_uint(a, b, &mut r);
+        n += 1;
+        let e = wrap(&p, rl);
+        if r != e {
+            return Err((format!("multiply_uint result_len={rl} a={a:x?} b={b:x?}"), format!("{e:x?}"), format!("{r:x?}")));
+        }
+    }
+    Ok(n)
+}
+
+fn big_divide_eval(num: &[u64], den: &[u64]) -> Result<u64, EvalErr> {
+    let len = num.len();
+    let (bn, bd) = (BigU::from_limbs(num), BigU::from_limbs(den));
+    // (q, r) is THE quotient and remainder iff q*d + r = n and r < d; the bit-by-bit reference division is only run for the message
+    let judge = |what: &str, quo: &[u64], rem: &[u64]| -> Result<(), EvalErr> {
+        let (q, r) = (BigU::from_limbs(quo), BigU::from_limbs(rem));
+        if r < bd && q.mul(&bd).add(&r) == bn {
+            return Ok(());
+        }
+        let (eq, er) = bn.divrem(&bd);
+        Err((format!("{what} a={num:x?} b={den:x?}"), format!("quotient={:x?} remainder={:x?}", eq.limbs(len), er.limbs(len)), format!("quotient={quo:x?} remainder={rem:x?}")))
+    };
+    let mut n = num.to_vec();
+    let mut quo = vec![0xDEADu64; len];
+    hu::divide_uint_inplace(&mut n, den, &mut quo);
+    judge("divide_uint_inplace", &quo, &n)?;
+    let mut quo = vec![0xDEADu64; len];
+    let mut rem = vec![0xDEADu64; len];
+    hu::divide_uint(num, den, &mut quo, &mut rem);
+    judge("divide_uint", &quo, &rem)?;
+    Ok(2)
+}
+
+/// (numerator, denominator) pairs of `len` words: denominators of EVERY significant length dl = 1..len
+/// (2^(64(dl-1)), all-ones, fill; complete: also 2^(64(dl-1))+1 and 2^(64dl-1)+1), numerators all-ones, fill (complete: also
+/// 2^(64len-1), 2^(64(len-1))); complete: numerators of every significant length nl < len (all-ones, fill) against
+/// denominators of dl in {1, nl-1, nl, nl+1, len} words.
+fn fam_divide(len: usize, full: bool) -> Vec<(Vec<u64>, Vec<u64>)> {
+    let dens = |dl: usize, full: bool| -> Vec<Vec<u64>> {
+        let mut d = vec![unit_w(dl, dl - 1, 1), vec![MAXW; dl], gen_fill(dl, 2)];
+        if full {
+            let mut x = unit_w(dl, dl - 1, 1);
+            x[0] |= 1;
+            x[0] += (dl == 1) as u64; // 2 for one word
+            d.push(x);
+            let mut x = unit_w(dl, dl - 1, TOPBIT);
+            x[0] |= 1;
+            d.push(x);
+        }
+        d
+    };
+    let mut nums = vec![vec![MAXW; len], gen_fill(len, 0)];
+    if full {
+        nums.push(unit_w(len, len - 1, TOPBIT));
+        nums.push(unit_w(len, len - 1, 1));
+    }
+    let mut out = vec![];
+    for n in &nums {
+        for dl in 1..=len {
+            for d in dens(dl, full) {
+                out.push((n.clone(), ext(&d, len)));
+            }
+        }
+    }
+    if full {
+        for nl in 1..len {
+            for n in [vec![MAXW; nl], gen_fill(nl, 0)] {
+                let mut dls = vec![1, nl.saturating_sub(1).max(1), nl, nl + 1, len];
+                dls.sort();
+                dls.dedup();
+                for dl in dls {
+                    for d in [vec![MAXW; dl], gen_fill(dl, 2)] {
+                        out.push((ext(&n, len), ext(&d, len)));
+                    }
+                }
+            }
+        }
+    }
+    out
+}
+
+/// Operand vectors of multiply_many_u64 with `count` operands.
+fn fam_many(count: usize) -> Vec<Vec<u64>> {
+    let mut v: Vec<Vec<u64>> = [1u64, 2, TOPBIT, MAXW].iter().map(|&w| vec![w; count]).collect();
+    v.push(gen_fill(count, 3).into_iter().map(|w| w | 1).collect());
+    for i in 0..count {
+        for (base, w) in [(MAXW, 0u64), (MAXW, 1), (MAXW, 2), (1, MAXW), (2, MAXW)] {
+            let mut x = vec![base; count];
+            x[i] = w;
+            v.push(x);
+        }
+    }
+    dedup_keep_order(v)
+}
+
+fn big_many_eval(ops: &[u64]) -> Result<u64, EvalErr> {
+    let p = BigU::product(ops);
+    let mut r = vec![0xDEADu64; ops.len()];
+    hu::multiply_many_u64(ops, &mut r);
+    let e = wrap(&p, ops.len());
+    if r != e {
+        return Err((format!("multiply_many_u64 operands={ops:x?}"), format!("{e:x?}"), format!("{r:x?}")));
+    }
+    Ok(1)
+}
+
+/// add_uint_carry / sub_uint_borrow (+ in-place forms) and compare_uint on operands of DIFFERENT word counts.
+fn big_mixed_eval(a: &[u64], b: &[u64]) -> Result<u64, EvalErr> {
+    let (l1, l2) = (a.len(), b.len());
+    let m = l1.max(l2);
+    let (ba, bb) = (BigU::from_limbs(a), BigU::from_limbs(b));
+    let inp = || format!("a={a:x?} b={b:x?}");
+    let mut n = 0u64;
+    macro_rules! chk {
+        ($what:expr, $obs:expr, $exp:expr) => {{
+            let (o, e) = ($obs, $exp);
+            n += 1;
+            if o != e {
+                return Err((format!("{} {}", $what, inp()), format!("{:x?}", e), format!("{:x?}", o)));
+            }
+        }};
+    }
+    for c in 0..=1u8 {
+        let s = ba.add(&bb).add(&BigU::from_u64(c as u64));
+        let y = bb.add(&BigU::from_u64(c as u64));
+        for rl in [m, m + 1] {
+            let mut r = vec![0xDEADu64; rl];
+            chk!(format!("add_uint_carry c={c} rl={rl} carry"), hu::add_uint_carry(a, b, c, &mut r), (s >= pow2w(rl)) as u8);
+            chk!(format!("add_uint_carry c={c} rl={rl}"), r, wrap(&s, rl));
+            let (e, bo) = if ba >= y { (wrap(&ba.sub(&y), rl), 0u8) } else { (wrap(&pow2w(rl).add(&ba).sub(&y), rl), 1u8) };
+            let mut r = vec![0xDEADu64; rl];
+            chk!(format!("sub_uint_borrow c={c} rl={rl} borrow"), hu::sub_uint_borrow(a, b, c, &mut r), bo);
+            chk!(format!("sub_uint_borrow c={c} rl={rl}"), r, e);
+        }
+        if l1 >= l2 {
+            // in-place forms: the result has the word count of the first operand, the second one may be shorter
+            let mut x = a.to_vec();
+            chk!(format!("add_uint_carry_inplace c={c} carry"), hu::add_uint_carry_inplace(&mut x, b, c), (s >= pow2w(l1)) as u8);
+            chk!(format!("add_uint_carry_inplace c={c}"), x, wrap(&s, l1));
+            let (e, bo) = if ba >= y { (wrap(&ba.sub(&y), l1), 0u8) } else { (wrap(&pow2w(l1).add(&ba).sub(&y), l1), 1u8) };
+            let mut x = a.to_vec();
+            chk!(format!("sub_uint_borrow_inplace c={c} borrow"), hu::sub_uint_borrow_inplace(&mut x, b, c), bo);
+            chk!(format!("sub_uint_borrow_inplace c={c}"), x, e);
+        }
+    }
+    let e = ba.cmp(&bb);
+    chk!("compare_uint", hu::compare_uint(a, b), e);
+    chk!("is_greater_than_uint", hu::is_greater_than_uint(a, b), e == std::cmp::Ordering::Greater);
+    chk!("is_greater_than_or_equal_uint", hu::is_greater_than_or_equal_uint(a, b), e != std::cmp::Ordering::Less);
+    chk!("is_less_than_uint", hu::is_less_than_uint(a, b), e == std::cmp::Ordering::Less);
+    chk!("is_less_than_or_equal_uint", hu::is_less_than_or_equal_uint(a, b), e != std::cmp::Ordering::Greater);
+    chk!("is_equal_uint", hu::is_equal_uint(a, b), e == std::cmp::Ordering::Equal);
+    Ok(n)
+}
+
+/// Moduli of `len` words for the multi-word modular helpers: every significant length ml = 1..len
+/// (2^(64(ml-1))+1, all-ones, odd fill, 2^(64ml-1)), zero-extended.
+fn fam_moduli(len: usize) -> Vec<Vec<u64>> {
+    let mut v = vec![];
+    for ml in 1..=len {
+        let mut x = unit_w(ml, ml - 1, 1);
+        x[0] += 1; // 2 for one word, 2^(64(ml-1))+1 above
+        v.push(ext(&x, len));
+        v.push(ext(&vec![MAXW; ml], len));
+        let mut x = gen_fill(ml, 4);
+        x[0] |= 1;
+        v.push(ext(&x, len));
+        v.push(ext(&unit_w(ml, ml - 1, TOPBIT), len));
+    }
+    dedup_keep_order(v)
+}
+
+/// All modular helpers of basic.rs for one multi-word modulus: operands {0, 1, 2, m-1, m-2, floor(m/2), floor(m/2)+1,
+/// m - fill, lowest word all-ones, 2^(bits(m)-2)} below m; every operand for the unary helpers, every PAIR for add / sub.
+fn big_mod_eval(mw: &[u64]) -> Result<u64, EvalErr> {
+    let len = mw.len();
+    let m = BigU::from_limbs(mw);
+    let one = BigU::one();
+    let mut xs: Vec<BigU> = vec![BigU::zero(), one.clone(), BigU::from_u64(2), m.sub(&one), m.shr(1), m.shr(1).add(&one), BigU::from_u64(MAXW), BigU::pow2(m.bits().saturating_sub(2))];
+    if m >= BigU::from_u64(2) {
+        xs.push(m.sub(&BigU::from_u64(2)));
+    }
+    let sig = m.0.len();
+    if sig >= 2 {
+        xs.push(m.sub(&BigU::from_limbs(&gen_fill(sig - 1, 5))));
+    }
+    xs.retain(|x| x < &m);
+    xs.sort();
+    xs.dedup();
+    let mut n = 0u64;
+    macro_rules! chk {
+        ($what:expr, $obs:expr, $exp:expr) => {{
+            let (o, e) = ($obs, $exp);
+            n += 1;
+            if o != e {
+                return Err((format!("{} modulus={mw:x?}", $what), format!("{:x?}", e), format!("{:x?}", o)));
+            }
+        }};
+    }
+    let red = |v: BigU| -> Vec<u64> { (if v >= m { v.sub(&m) } else { v }).limbs(len) };
+    for x in &xs {
+        let xa = x.limbs(len);
+        let mut r = vec![0xDEADu64; len];
+        hu::increment_uint_mod(&xa, mw, &mut r);
+        chk!(format!("increment_uint_mod x={xa:x?}"), r.clone(), red(x.add(&one)));
+        hu::decrement_uint_mod(&xa, mw, &mut r);
+        chk!(format!("decrement_uint_mod x={xa:x?}"), r.clone(), red(x.add(&m).sub(&one)));
+        hu::negate_uint_mod(&xa, mw, &mut r);
+        chk!(format!("negate_uint_mod x={xa:x?}"), r.clone(), red(m.sub(x)));
+        if mw[0] & 1 == 1 {
+            let mut r = vec![0xDEADu64; len];
+            hu::div2_uint_mod(&xa, mw, &mut r);
+            let e = if xa[0] & 1 == 1 { x.add(&m).shr(1) } else { x.shr(1) };
+            chk!(format!("div2_uint_mod x={xa:x?}"), r, e.limbs(len));
+        }
+        for y in &xs {
+            let ya = y.limbs(len);
+            let mut r = vec![0xDEADu64; len];
+            hu::add_uint_mod(&xa, &ya, mw, &mut r);
+            chk!(format!("add_uint_mod x={xa:x?} y={ya:x?}"), r.clone(), red(x.add(y)));
+            let mut xi = xa.clone();
+            hu::add_uint_mod_inplace(&mut xi, &ya, mw);
+            chk!(format!("add_uint_mod_inplace x={xa:x?} y={ya:x?}"), xi, red(x.add(y)));
+            hu::sub_uint_mod(&xa, &ya, mw, &mut r);
+            chk!(format!("sub_uint_mod x={xa:x?} y={ya:x?}"), r.clone(), red(x.add(&m).sub(y)));
+        }
+    }
+    Ok(n)
+}
+
+const BIG_UNARY: &[&str] = &["bits", "incdec", "negate", "shift_left", "shift_right", "half_round_up"];
+const BIG_PAIR: &[&str] = &["add", "add_carry", "sub", "sub_borrow", "compare"];
+const BIG_WORD2: &[&str] = &["add_u64", "sub_u64", "multiply_u64"];
+
+fn run_big(c: &BCase) -> CaseOut {
+    let full = c.full != 0;
+    let len = c.len;
+    let f = c.func.as_str();
+    let mut steps = 0u64;
+    // judge one guarded evaluation; Some(fail) ends the case
+    let mut judge = |r: Result<Result<u64, EvalErr>, String>, inp: &dyn Fn() -> String| -> Option<CaseOut> {
+        match r {
+            Ok(Ok(n)) => {
+                steps += n;
+                None
+            }
+            Ok(Err((what, exp, obs))) => {
+                let helper = what.split_whitespace().next().unwrap_or("?").to_string();
+                Some(CaseOut::fail(format!("big_multi:{f}:{helper}"), format!("{what} -> {exp}"), obs))
+            }
+            Err(p) => Some(CaseOut::fail(format!("big_multi:{f}:panic:{}", panic_class(&p)), format!("no panic for {}", inp()), p)),
+        }
+    };
+    macro_rules! run {
+        ($eval:expr, $inp:expr) => {
+            if let Some(fail) = judge(guard(|| $eval), &$inp) {
+                return fail;
+            }
+        };
+    }
+    if len == 0 {
+        return CaseOut::skip("empty operand");
+    }
+    if BIG_UNARY.contains(&f) {
+        let zero = vec![0u64; len];
+        // the per-shift loops are quadratic in len: the quick tier shifts all-ones, fill and the single words only
+        let ops = if f.starts_with("shift") && !full { fam_mixed(len) } else { fam_u(len, full) };
+        for a in &ops {
+            run!(multi_eval(f, a, &zero), || format!("a={a:x?}"));
+        }
+    } else if BIG_PAIR.contains(&f) {
+        let (ops, pairs) = fam_pairs(len, full);
+        for &(i, j) in &pairs {
+            let (a, b) = (&ops[i as usize], &ops[j as usize]);
+            run!(multi_eval(f, a, b), || format!("a={a:x?} b={b:x?}"));
+        }
+    } else if BIG_WORD2.contains(&f) {
+        for a in &fam_u(len, full) {
+            for w in [0u64, 1, 2, TOPBIT, MAXW, 0x9E37_79B9_7F4A_7C15] {
+                let b = unit_w(len, 0, w);
+                run!(multi_eval(f, a, &b), || format!("a={a:x?} b={w:#x}"));
+            }
+        }
+    } else if f == "logic" {
+        let seconds = [vec![0u64; len], vec![MAXW; len], gen_fill(len, 0), gen_fill(len, 1)];
+        for a in &fam_u(len, full) {
+            for b in &seconds {
+                run!(multi_eval(f, a, b), || format!("a={a:x?} b={b:x?}"));
+            }
+        }
+    } else if f == "mod" {
+        for m in &fam_moduli(len) {
+            run!(big_mod_eval(m), || format!("modulus={m:x?}"));
+        }
+    } else if f == "multiply" {
+        if c.len2 == 0 {
+            return CaseOut::skip("empty operand");
+        }
+        let second = fam_mul(c.len2, full);
+        for a in &fam_mul(len, full) {
+            for b in &second {
+                run!(big_multiply_eval(a, b), || format!("a={a:x?} b={b:x?}"));
+            }
+        }
+    } else if f == "mixed" {
+        if c.len2 == 0 {
+            return CaseOut::skip("empty operand");
+        }
+        let second = fam_mixed(c.len2);
+        for a in &fam_mixed(len) {
+            for b in &second {
+                run!(big_mixed_eval(a, b), || format!("a={a:x?} b={b:x?}"));
+            }
+        }
+    } else if f == "divide" {
+        for (a, b) in &fam_divide(len, full) {
+            run!(big_divide_eval(a, b), || format!("a={a:x?} b={b:x?}"));
+        }
+    } else if f == "multiply_many" {
+        for ops in &fam_many(len) {
+            run!(big_many_eval(ops), || format!("operands={ops:x?}"));
+        }
+    } else {
+        panic!("unknown big func {f}");
+    }
+    CaseOut { nontrivial: steps > 0, outcome: h64(&(f, len, c.len2, steps)), steps, verdict: if steps > 0 { Verdict::Pass } else { Verdict::Skip("empty family".into()) } }
+}
+
+fn big_cases(thorough: bool) -> Vec<BCase> {
+    let full = thorough as u8;
+    let mut cases: Vec<BCase> = vec![];
+    for &len in &BIG_LENS {
+        for f in BIG_UNARY.iter().chain(BIG_PAIR).chain(BIG_WORD2).chain(&["logic", "mod", "divide"]) {
+            cases.push(BCase { func: f.to_string(), len, len2: 0, full });
+        }
+        for &len2 in &BIG_LENS {
+            cases.push(BCase { func: "multiply".into(), len, len2, full });
+            if len != len2 {
+                cases.push(BCase { func: "mixed".into(), len, len2, full });
+            }
+        }
+    }
+    for count in 1..=66 {
+        cases.push(BCase { func: "multiply_many".into(), len: count, len2: 0, full });
+    }
+    if thorough {
+        // twice the production maximum (64 coefficient primes), on the reduced families
+        for len in BIG_LENS_2X {
+            for f in BIG_UNARY.iter().chain(BIG_PAIR).chain(BIG_WORD2).chain(&["logic", "mod", "divide"]) {
+                cases.push(BCase { func: f.to_string(), len, len2: 0, full: 0 });
+            }
+            for len2 in [1usize, 64, 128] {
+                cases.push(BCase { func: "multiply".into(), len, len2, full: 0 });
+                cases.push(BCase { func: "multiply".into(), len: len2, len2: len, full: 0 });
+                if len != len2 {
+                    cases.push(BCase { func: "mixed".into(), len, len2, full: 0 });
+                    cases.push(BCase { func: "mixed".into(), len: len2, len2: len, full: 0 });
+                }
+            }
+        }
+        for count in [127usize, 128, 129] {
+            cases.push(BCase { func: "multiply_many".into(), len: count, len2: 0, full: 0 });
+        }
+    }
+    // simplest first
+    cases.sort_by_key(|c| (c.len.max(c.len2), c.len + c.len2));
+    cases
+}
+
+// ---- word-level primitives that loop: value length, term count, exponent bits ----
+
+/// value lengths of modulo_uint(_inplace)
+fn big_word_lens(full: bool) -> Vec<usize> {
+    if full {
+        (1..=129).collect()
+    } else {
+        BIG_LENS.iter().copied().chain([127, 128, 129]).collect()
+    }
+}
+
+/// moduli of the `modulo_uint` cases: the boundary moduli of 2, 3, 31..33 and 59..61 bits
+fn big_word_moduli() -> Vec<u64> {
+    boundary_moduli().into_iter().filter(|&q| matches!(64 - q.leading_zeros(), 2 | 3 | 31 | 32 | 33 | 59 | 60 | 61)).collect()
+}
+
+/// exponents of every bit length 0..64
+fn big_exponents() -> Vec<u64> {
+    let mut v = vec![0u64, 1];
+    for k in 1..64u32 {
+        let top = 1u64 << k;
+        let low = top - 1;
+        v.extend([top, top | 1, top | low, top | (0x5555_5555_5555_5555 & low), top | (0xAAAA_AAAA_AAAA_AAAA & low), top | (low >> 1)]);
+    }
+    v.sort();
+    v.dedup();
+    v
+}
+
+fn run_big_word(c: &BWCase) -> CaseOut {
+    let q = c.q;
+    let full = c.full != 0;
+    let f = c.func.as_str();
+    let m = match guard(|| Modulus::new(q)) {
+        Ok(m) => m,
+        Err(p) => return CaseOut::fail(format!("big_word:{f}:modulus_new_panic"), "Modulus::new accepts 2..61-bit values", p),
+    };
+    let mut steps = 0u64;
+    macro_rules! cmp {
+        ($helper:expr, $call:expr, $exp:expr, $inp:expr) => {{
+            steps += 1;
+            match guard(|| $call) {
+                Ok(o) => {
+                    let e = $exp;
+                    if o != e {
+                        return CaseOut::fail(format!("big_word:{}:wrong", $helper), format!("{} -> {:?}", $inp, e), format!("{:?}", o));
+                    }
+                }
+                Err(p) => return CaseOut::fail(format!("big_word:{}:panic:{}", $helper, panic_class(&p)), format!("no panic for {}", $inp), p),
+            }
+        }};
+    }
+    match f {
+        "modulo_uint" => {
+            for len in big_word_lens(full) {
+                for v in &fam_u(len, full) {
+                    let exp = BigU::from_limbs(v).rem_u64(q);
+                    cmp!("modulo_uint", hu::modulo_uint(v, &m), exp, format!("q={q} value={v:x?}"));
+                    let mut e = vec![0u64; len];
+                    e[0] = exp;
+                    cmp!(
+                        "modulo_uint_inplace",
+                        {
+                            let mut w = v.clone();
+                            hu::modulo_uint_inplace(&mut w, &m);
+                            w
+                        },
+                        e,
+                        format!("q={q} value={v:x?}")
+                    );
+                }
+            }
+        }
+        "dot_product" => {
+            // domain ("follows the condition of barrett_reduce_128"): the exact sum of the products fits 128 bits
+            let fit = |x: u64, count: usize| -> u64 { (u128::MAX / (count as u128 * x.max(1) as u128)).min(u64::MAX as u128) as u64 };
+            let refdot = |a: &[u64], b: &[u64]| -> u64 {
+                let mut s = 0u128;
+                for (x, y) in a.iter().zip(b) {
+                    s = (s + (*x as u128 * *y as u128) % q as u128) % q as u128;
+                }
+                s as u64
+            };
+            let user_max = (1u64 << 60) - 1;
+            for count in 1..=300usize {
+                // (a) maximal reduced operands, the second one lowered just enough for the sum to fit
+                let (x, y) = (q - 1, (q - 1).min(fit(q - 1, count)));
+                let (v1, v2) = (vec![x; count], vec![y; count]);
+                cmp!("dot_product", hu::dot_product_mod(&v1, &v2, &m), refdot(&v1, &v2), format!("q={q} count={count} all x={x} y={y}"));
+                // (b) maximal operands of the user-modulus range (below 2^60, not reduced), lowered likewise
+                let (x, y) = (user_max, user_max.min(fit(user_max, count)));
+                let (v1, v2) = (vec![x; count], vec![y; count]);
+                cmp!("dot_product", hu::dot_product_mod(&v1, &v2, &m), refdot(&v1, &v2), format!("q={q} count={count} all x={x} y={y}"));
+                // (c) position-distinct reduced operands (a term dropped, doubled or paired with the wrong index changes the sum)
+                let ycap = (q - 1).min(fit(q - 1, count));
+                let v1: Vec<u64> = (0..count as u64).map(|i| q - 1 - (i % q)).collect();
+                let v2: Vec<u64> = (0..count as u64).map(|i| ycap - ((3 * i + 1) % (ycap + 1))).collect();
+                cmp!("dot_product", hu::dot_product_mod(&v1, &v2, &m), refdot(&v1, &v2), format!("q={q} count={count} x_i=q-1-i y_i={ycap}-(3i+1)"));
+                // (d) a single maximal term at every position
+                for i in 0..count {
+                    let (mut v1, mut v2) = (vec![0u64; count], vec![0u64; count]);
+                    v1[i] = q - 1;
+                    v2[i] = q - 1;
+                    cmp!("dot_product", hu::dot_product_mod(&v1, &v2, &m), mul_mod(q - 1, q - 1, q), format!("q={q} count={count} single term (q-1)^2 at {i}"));
+                }
+            }
+        }
+        "exponentiate" => {
+            let mut bases = vec![0u64, 1, 2, 3, q / 2, q.saturating_sub(2), q - 1, 0x9E37_79B9_7F4A_7C15 % q];
+            bases.retain(|&b| b < q);
+            bases.sort();
+            bases.dedup();
+            for &e in &big_exponents() {
+                for &b in &bases {
+                    cmp!("exponentiate", hu::exponentiate_u64_mod(b, e, &m), pow_mod(b, e, q), format!("q={q} base={b} exponent={e:#x}"));
+                }
+            }
+        }
+        _ => panic!("unknown big word func {f}"),
+    }
+    CaseOut::pass(true, h64(&(f, 64 - q.leading_zeros(), steps)), steps)
+}
+
 pub fn sections(cfg: &RunCfg) -> Vec<Box<dyn AnySection>> {
     let thorough = cfg.thorough();
     let mut v: Vec<Box<dyn AnySection>> = vec![];
@@ -960,7 +1631,10 @@ pub fn sections(cfg: &RunCfg) -> Vec<Box<dyn AnySection>> {
         &format!("every util::basic helper: all operand (pairs) over W={{0,1,2^63,2^64-1,0x55..,0xAA..}}^len, len 1..{maxlen_full}; W'={{0,1,2^64-1}}^len above; every shift amount"),
         cases.into_iter(),
         run_multi,
-    ));
+    )
+    // the W^4 x W^4 cases of the thorough tier take ~25 s of CPU each: with the default 60 s deadline a machine loaded 10x over
+    // reported one of them (mod_incdecneg, len 4) as `nontermination`
+    .deadline(std::time::Duration::from_secs(if thorough { 300 } else { 60 })));
 
     // (iv) number theory helpers
     let mut xs: Vec<u64> = (0..128).collect();
@@ -982,5 +1656,57 @@ pub fn sections(cfg: &RunCfg) -> Vec<Box<dyn AnySection>> {
             run_nt(c, &ys)
         }
     }));
+
+    // (v) multi-word helpers at production word counts (structured exhaustive families)
+    let fam = if thorough { "complete" } else { "reduced" };
+    v.push(
+        E1::new(
+            "big_multi",
+            &format!(
+                "every util::basic multi-word helper at EVERY word count len in {{1..9, 15..17, 31..33, 63..65}} on the {fam} structured families over \
+                 {{0,1,2^63,2^64-1}}: U(len) = zero, all-ones, fill, a single word at every position, all-ones with every word replaced, every low / high \
+                 all-ones run; binary carry/borrow/compare helpers on U x U + (run [i,j), word at i) for all i<j + pairs differing in exactly one word; \
+                 every shift amount 0..64*len and every bit index; multiply_uint for every (len1, len2) of the list with result buffers of \
+                 1 .. len1+len2+3 words; mixed-length add_uint_carry / sub_uint_borrow / compare_uint for every len1 != len2; divide_uint(_inplace) with \
+                 denominators of every significant length 1..len; the *_uint_mod helpers for moduli of every significant length 1..len; \
+                 multiply_many_u64 for every operand count 1..66{}"
+            , if thorough { "; additionally len 127..129 on the reduced families (multiply / mixed against 1, 64, 128 words; multiply_many of 127..129 operands)" } else { "" }),
+            big_cases(thorough).into_iter(),
+            run_big,
+        )
+        .batch(1)
+        // largest case: 0.7 s CPU quick, 4 s thorough (the bit-by-bit division never terminates when a helper under it is wrong)
+        .deadline(std::time::Duration::from_secs(if thorough { 240 } else { 60 }))
+        .hang_key(|c: &BCase| format!("big_multi:{}:nontermination", c.func)),
+    );
+
+    // (vi) word-level primitives that loop: multi-word reduction, dot product, exponentiation
+    let full = thorough as u8;
+    let mut cases: Vec<BWCase> = vec![];
+    for q in big_word_moduli() {
+        cases.push(BWCase { func: "modulo_uint".into(), q, full });
+    }
+    for q in if thorough { boundary_moduli() } else { big_word_moduli() } {
+        cases.push(BWCase { func: "exponentiate".into(), q, full });
+        cases.push(BWCase { func: "dot_product".into(), q, full });
+    }
+    v.push(
+        E1::new(
+            "big_word",
+            &format!(
+                "modulo_uint(_inplace): values of {} words from U(len) x boundary moduli of 2,3,31..33,59..61 bits; dot_product_mod: EVERY term count \
+                 1..300 x {mods} x (all terms maximal with the exact sum below 2^128, reduced and 60-bit operands; position-distinct \
+                 terms; a single maximal term at every position); exponentiate_u64_mod: exponents of EVERY bit length 0..64 \
+                 (2^k, 2^k+1, 2^(k+1)-1, 2^k+0x55.., 2^k+0xAA.., 2^k+2^(k-1)-1) x 8 bases x {mods}",
+                if thorough { "every length 1..129" } else { "1..9, 15..17, 31..33, 63..65, 127..129" },
+                mods = if thorough { "every boundary modulus (2..61 bits)" } else { "the same moduli" }
+            ),
+            cases.into_iter(),
+            run_big_word,
+        )
+        .batch(1)
+        .deadline(std::time::Duration::from_secs(if thorough { 240 } else { 60 }))
+        .hang_key(|c: &BWCase| format!("big_word:{}:nontermination", c.func)),
+    );
     v
 }
